@@ -39,6 +39,9 @@ pub enum Step {
     DeleteFile { doc: u8 },
     /// open / change / save / dictionary commands on one of ODD_URIS
     OddUri { which: u8, text: u8 },
+    /// a document deep in the workspace (absolute path of 150-400 bytes): open, add words to the
+    /// file and user dictionaries, save, close
+    DeepPath { shape: u8, text: u8 },
 }
 
 #[derive(Debug, Clone, Serialize, Deserialize, PartialEq, Eq, Hash)]
@@ -298,6 +301,31 @@ fn run_session(c: &Session, ctx: &mut CaseCtx) -> Result<Result<(), String>, Lsp
                 srv.settle(Duration::from_millis(100))?;
                 ctx.class("odd_uri");
             }
+            Step::DeepPath { shape, text } => {
+                // (directories, length of each name)
+                let (n, len) = [(8usize, 40usize), (2, 150), (5, 48), (3, 40), (1, 200), (6, 36)][*shape as usize % 6];
+                let mut rel = PathBuf::new();
+                for k in 0..n {
+                    rel.push(format!("{}{}", (b'a' + k as u8) as char, "x".repeat(len - 1)));
+                }
+                let dir = sb.ws_file("deep").join(&rel);
+                std::fs::create_dir_all(&dir).map_err(|e| LspError::Protocol(e.to_string()))?;
+                let file = dir.join("notes.md");
+                let t = TEXTS[*text as usize % TEXTS.len()];
+                std::fs::write(&file, t).map_err(|e| LspError::Protocol(e.to_string()))?;
+                let uri = format!("file://{}", file.display());
+                srv.open(&uri, "markdown", t)?;
+                for cmd in ["HarperAddToFileDict", "HarperAddToUserDict"] {
+                    let id = srv.request("workspace/executeCommand", json!({"command": cmd, "arguments": [format!("zqdeep{saves}"), uri]}))?;
+                    // saving may fail (file name too long); whatever happens must stay inside the configured directories
+                    let _ = srv.wait_response(id, Duration::from_secs(20));
+                    saves += 1;
+                    commands += 1;
+                }
+                srv.settle(Duration::from_millis(200))?;
+                srv.close(&uri)?;
+                ctx.class(if file.as_os_str().len() >= 256 { "document_path_of_256_bytes_or_more" } else { "deep_document_path" });
+            }
             Step::DeleteFile { doc } => {
                 let i = *doc as usize % 4;
                 let was = open[i];
@@ -374,6 +402,7 @@ fn step() -> BoxedStrategy<Step> {
         1 => (0u8..4).prop_map(|doc| Step::CodeActions { doc }),
         1 => (0u8..4).prop_map(|doc| Step::DeleteFile { doc }),
         2 => (0u8..4, any::<u8>()).prop_map(|(which, text)| Step::OddUri { which, text }),
+        2 => (0u8..6, any::<u8>()).prop_map(|(shape, text)| Step::DeepPath { shape, text }),
     ]
     .boxed()
 }
@@ -564,6 +593,52 @@ fn tcp_session(run: &mut Run) {
     }
 }
 
+/// TCP mode while the fixed port is taken (a second editor window): whatever the server does
+/// instead, it must not listen anywhere but on the loopback address.
+fn tcp_busy_port_session(run: &mut Run) {
+    let sb = Sandbox::new("c10busy");
+    let trace_file = sb.root.join("trace.txt");
+    // hold the port ourselves; if somebody else already does, it is just as busy
+    let _holder = std::net::TcpListener::bind("127.0.0.1:4000");
+    let mut cmd = std::process::Command::new("strace");
+    cmd.args(&strace_wrapper(&trace_file, TRACE)[1..]);
+    cmd.arg(crate::lsp::ls_binary())
+        .env("HOME", sb.root.join("home"))
+        .env("XDG_CONFIG_HOME", sb.root.join("config"))
+        .env("XDG_DATA_HOME", sb.root.join("data"))
+        .stdin(std::process::Stdio::null())
+        .stdout(std::process::Stdio::null())
+        .stderr(std::process::Stdio::null());
+    let Ok(mut child) = cmd.spawn() else {
+        run.infra_problems.push("cannot start harper-ls in TCP mode".into());
+        return;
+    };
+    let t0 = std::time::Instant::now();
+    while t0.elapsed() < Duration::from_secs(3) {
+        if let Ok(Some(_)) = child.try_wait() {
+            break;
+        }
+        std::thread::sleep(Duration::from_millis(50));
+    }
+    let _ = child.kill();
+    let _ = child.wait();
+    let text = std::fs::read_to_string(&trace_file).unwrap_or_default();
+    let trace = parse_trace(&text);
+    let allowed = vec![sb.root.join("data").to_string_lossy().to_string(), sb.root.join("config").to_string_lossy().to_string()];
+    let findings = audit(&trace, &allowed, &allowed, true, &crate::lsp::ls_binary().to_string_lossy());
+    let refused = trace.iter().any(|s| s.name == "bind" && s.failed() && s.decoded_args().contains("htons(4000)"));
+    let mut st = crate::core::CheckStats::new("tcp_mode_port_in_use");
+    st.evaluations = 1;
+    if refused {
+        st.nontrivial.insert(1);
+    }
+    st.samples.push(json!({"bind_to_port_4000_refused": refused, "syscalls_audited": trace.len(), "network_syscalls": trace.iter().filter(|s| matches!(s.name.as_str(), "socket" | "bind" | "listen" | "accept" | "accept4" | "connect")).map(|s| format!("{}({}){}", s.name, crate::core::truncate(&s.decoded_args(), 80), if s.failed() { " = failed" } else { "" })).collect::<Vec<_>>()}));
+    run.add_stats(st);
+    if let Some(f) = findings.first() {
+        run.fail("tcp_mode_port_in_use", json!({"mode": "tcp", "port_4000": "in use"}), format!("harper-ls in TCP mode with port 4000 in use {} ({} findings)", f.what, findings.len()));
+    }
+}
+
 // ------------------------------------------------------------------------------------------------
 // static auxiliary: resolved dependency set of the shipped crates
 
@@ -631,7 +706,7 @@ fn dependency_scan(run: &mut Run) {
 }
 
 pub fn run(run: &mut Run) {
-    run.rule = "(a) generated harper-ls sessions (4 documents incl. URLs, e-mail addresses and host names; open/change/save/close/delete, AddToUserDict, AddToFileDict, IgnoreLint, RecordLint, codeAction, didChangeConfiguration, shutdown; never HarperOpen) each run under strace -f: no socket/connect/send*/bind/listen, no resolver or TLS files, no exec of another program, and every create/write/rename/unlink/mkdir targets the configured dictionary or statistics paths; thorough adds one TCP-mode session (only the 127.0.0.1:4000 listener and its accepted connection). (b) a worker process pushing generated documents through all front-ends, the harper.js API and statistics export/import under strace: no network syscall and nothing opened for writing. Non-trivial session = >=1 dictionary save, >=1 command and the statistics write at shutdown. Auxiliary (static): cargo metadata closure of harper-ls/harper-cli/harper-wasm scanned against a deny-list of network client crates.".into();
+    run.rule = "(a) generated harper-ls sessions (4 documents incl. URLs, e-mail addresses and host names; open/change/save/close/delete, AddToUserDict, AddToFileDict, IgnoreLint, RecordLint, codeAction, didChangeConfiguration, shutdown; never HarperOpen) each run under strace -f: no socket/connect/send*/bind/listen, no resolver or TLS files, no exec of another program, and every create/write/rename/unlink/mkdir targets the configured dictionary or statistics paths; documents with odd URIs and documents whose absolute path has 150-400 bytes included; one TCP-mode session (only the 127.0.0.1:4000 listener and its accepted connection) and one TCP-mode start while port 4000 is in use (no listener anywhere else). (b) a worker process pushing generated documents through all front-ends, the harper.js API and statistics export/import under strace: no network syscall and nothing opened for writing. Non-trivial session = >=1 dictionary save, >=1 command and the statistics write at shutdown. Auxiliary (static): cargo metadata closure of harper-ls/harper-cli/harper-wasm scanned against a deny-list of network client crates.".into();
     run.threads = run.threads.min(6);
     run.max_shrink_iters = 40;
     let n = run.n(16, 200);
@@ -651,10 +726,10 @@ pub fn run(run: &mut Run) {
     );
     run.require_class("language_server_sessions", "dictionary_saved", (n / 2) as u64);
     run.require_class("language_server_sessions", "statistics_written_at_shutdown", (n / 2) as u64);
+    run.require_class("language_server_sessions", "document_path_of_256_bytes_or_more", (n / 8) as u64);
     run_library_worker(run);
-    if run.tier == crate::core::Tier::Thorough {
-        tcp_session(run);
-    }
+    tcp_session(run);
+    tcp_busy_port_session(run);
     dependency_scan(run);
 }
 
